@@ -104,6 +104,8 @@ def _taproot(c, prog):
               ("arg1.tx.input[arg3]", "TXIN"), ("arg1.tx.output[arg3]", "TXOUT"),
               ("sighash::Prevouts::get(arg4, arg3)", "PREVOUT"),
               ("sighash::SighashCache::taproot_cache(arg1, sighash::Prevouts::get_all(arg4))", "TAPCACHE"),
+              # the accessor handed the Prevouts value itself (unpacking moved inside it; which outputs it reads is C13's)
+              ("sighash::SighashCache::taproot_cache(arg1, arg4)", "TAPCACHE"),
               ("sighash::SighashCache::common_cache(arg1)", "COMMON"),
               ("transaction::TxIn::has_issuance(TXIN)", "ISS")])
     rows = ev_rows(b, n)
